@@ -83,7 +83,7 @@ OnName(k) ==                     \* transformOn: "on" + capitalised key
 
 IsOnKey(k) ==                    \* /^on[^a-z]/ over the prop-key alphabet in use
   k \in {"onClick", "onFoo", "onBar", "onUpdate:modelValue", "onUpdate:foo", "onUpdate:bar",
-         "onMouseenter", "on:x", "onUpdate:x", "onUpdate:m", "onUpdate:dyn", "onUpdate:title", "onUpdatedyn", "onUpdate:a_b"}
+         "onMouseenter", "on:x", "onUpdate:x", "onUpdate:m", "onUpdate:dyn", "onUpdate:title", "onUpdatedyn", "onUpdate:a_b", "onUpdate:inputValue"}
 
 (* ------------------------------------------------------------------ *)
 (* Vue: normalizeClass / normalizeStyle                                *)
